@@ -629,7 +629,7 @@ def gate_sweep(rnd, per_gate=3):
 
 
 PRELUDE = ("qubit[3] q;\nqubit[2] r;\nbit[3] c;\nint[8] iv = 2;\nconst int[8] cc = 1;\nfloat[32] fv = 1.5;\nbool bv = true;\n"
-           "gate g1(a) x { rx(a) x; }\ngate g2 x, y { cx x, y; }\n"
+           "gate g1(a) x { rx(a) x; }\ngate g2 x, y { cx x, y; }\ngate gfree x { rx(lv) x; }\ngate gfree2 x { rx(iv) x; }\n"
            "def s1(qubit a, int[8] n) -> int[8] { h a; return n; }\ndef s2(qubit[2] b) { cx b[0], b[1]; }\n")
 
 # (class, statement) : the statement must be rejected with ValidationError wherever it is reachable
@@ -724,6 +724,10 @@ ERRORS += [
     ("array-ref-index-range-in-body", "def rg(readonly array[int[8], 2] xa) -> int[8] { return xa[2]; } " + AR3 + "int[8] rr = rg(ar);"),
 ]
 ERRORS += [
+    # a gate body cannot read the variables of the code that applies it (lv: the loop variable of the for contexts)
+    ("gate-body-reads-callers-variable", "gfree q[0];"), ("gate-body-reads-callers-local", "int[8] lv2 = 1; gfree q[1];"),
+    ("gate-body-reads-global-variable", "gfree2 q[0];"),
+    ("gate-body-reads-callers-shadow", "float[64] lv = 0.5; gfree q[0];"),
     ("duplicate-sub-arg-nonadjacent", "def s6(qubit a, qubit b2, qubit c2) { h a; } s6(q[0], q[1], q[0]);"),
     ("duplicate-sub-arg-nonadjacent-slices", "def s7(qubit[2] a, qubit b2, qubit[2] c2) { h a; } s7(q[1:3], q[0], q[{2, 1}]);"),
     ("duplicate-sub-arg-two-registers", "def s8(qubit a, qubit b2, qubit c2, qubit d2) { h a; } s8(q[0], r[0], q[1], r[0]);"),
